@@ -238,7 +238,9 @@ var stringPool = []string{
 	"", " ", "hello", "a\tb", "\x1b[31mred", "x\u0000y", "\u009b31m", "\n", "\x7f", "\x00\x01\x02",
 	"2024-01-02T03:04:05Z", "2024-01-02T03:04:05+01:00", "2024-01-02 03:04:05", "2024-13-02T03:04:05Z", "2024-01-02T03:04:05.123456789Z",
 	"https://example.org/a?b=c#d", "https://exa mple.org/", "http://[::1]:80/", "://bad", "%zz", "https://a.example/\x7f", "mailto:x@y", "/relative/path", "https://user:pw@h.example:8443/p",
-	"text/html", "text/plain; charset=utf-8", "TEXT/Markdown", "text/gemini", "text/markdown", "text/", "/html", "text", "a/b/c", "te xt/html", "application/ld+json; profile=\"x\"", "image/*", "text/plain",
+	"text/html", "text/plain; charset=utf-8", "TEXT/Markdown", "text/gemini", "text/markdown", "text/", "/html", "text", "a/b/c", "te xt/html",
+	/* every printable ASCII character around the token characters of the media type grammar */
+	"text/plain, text/html", "image,video/png", ",/png", "image/,", "a+b/c-d.e", "a(b/c", "a)b/c", "a/b:c", "a;b/c", "a/b=c", "a@b/c", "a[b/c", "a]b/c", "a/b?c", "a{b/c", "a}b/c", "a\"b/c", "a<b/c", "a>b/c", "a\\b/c", "!#$%&'*+-.^_`|~/!#$%&'*+-.^_`|~", "application/ld+json; profile=\"x\"", "image/*", "text/plain",
 	"Note", "\t", "é漢😀",
 }
 
